@@ -186,6 +186,10 @@ def literal_sets():
     # several independent 2-cycles among enum values and among virtual fields
     out.append(({"m.emb": "enum Ee:\n  AA = BB\n  BB = AA\n  CC = DD\n  DD = CC\n  FF = GG\n  GG = FF\n"}, "m.emb"))
     out.append(({"m.emb": "struct Foo:\n  let a = b\n  let b = a\n  let c = d\n  let d = c\n  let e = f\n  let f = e\n"}, "m.emb"))
+    # errors in the middle operand of a chained comparison (one expression node with two parents)
+    out.append(({"m.emb": "struct Foo:\n  [requires: 0 <= nope <= 10]\n  0 [+1]  UInt  x\n"}, "m.emb"))
+    out.append(({"m.emb": "struct Foo:\n  [requires: 0 <= x + true <= 10]\n  0 [+1]  UInt  x\n"}, "m.emb"))
+    out.append(({"m.emb": "struct Foo:\n  0 [+1]  UInt  x\n  let ok = 1 < x + nope < 9 && 2 <= Foo.y <= 3\n"}, "m.emb"))
     # an accepted module with many imports, some of them imported twice under different names, and a
     # diamond: whatever is emitted once per import is emitted in one order
     many = {"m.emb": "".join('import "%s.emb" as %s\n' % (n_, a_) for n_, a_ in [("zeta", "z"), ("alpha", "a"), ("mid", "m"), ("beta", "b"), ("alpha", "a2"), ("omega_long_name", "o")])
